@@ -15,7 +15,9 @@ RULE = ("cases drawn from one PRNG (VERIF_SEED): a history of dispatch / abort /
         "Action, leptos_server ArcServerAction or ServerAction over a mock ServerFn (variant 0..5; the server wrappers are "
         "dispatched through their own methods; negative results are Err(ServerError); a quarter of the single-action cases "
         "start from an initial value: the …_with_value constructors, or for the server wrappers a ServerActionError context "
-        "with the function's own path / an undecodable payload / another path) or one ArcMultiAction / "
+        "with the function's own path / an undecodable payload / another path; 12 single variants in all: every ArcAction / "
+        "Action constructor incl. the unsync / local / deprecated ones, Default and From<ServerAction>) or one ArcMultiAction / "
+        "MultiAction (records read and cancelled through the arena Submission, From and FromLocal) / "
         "ArcServerMultiAction / ServerMultiAction (dispatch / dispatch_sync / cancel / complete / poll / run). "
         "Futures are oneshot receivers completed by the history; tasks are polled only when the history says so, in "
         "the order it says. Shapes: free mixes, abort-vs-completion races (abort and completion both delivered "
@@ -37,8 +39,11 @@ TRUSTED = [
     "ServerActionError context to the wrapper's constructor (the router code that reads the query is not)",
 ]
 ASSUMPTIONS = [
+    "notification: besides the direct reads, pending / version / value / input (and every field of every submission) are read "
+    "tracked inside one memo each; a field whose update does not notify its subscribers makes the harness fail the case",
     "single-threaded executor, atomic polls (the cross-thread windows belong to C19)",
-    "is_suppressing_resource_load() is false (dispatch is not suppressed)",
+    "dispatches made while resource loads are suppressed (event 8) must change nothing, call nothing and spawn nothing; "
+    "the model decodes them to no event",
     "'completed' means: the spawned task observed the future's result at a poll at which no abort message was in the channel; "
     "completion order = the order of those polls",
 ]
